@@ -20,7 +20,11 @@ func didPanic(f func()) (p bool) {
 }
 
 func c20ConstructorJob() *SeqJob {
-	ns := []int{-1, 0, 1, 2, 3, 64}
+	ns := []int{-1, 0}
+	for n := 1; n <= 40; n++ { // every count up to 40, then the 64 of the largest layouts in use
+		ns = append(ns, n)
+	}
+	ns = append(ns, 64)
 	starts := []float64{-2, 0, 0.25, 1, 3}
 	widths := []float64{-1, 0, 0.5, 2}
 	factors := []float64{-1, 0.5, 1, 1.5, 2}
